@@ -147,7 +147,7 @@ def rule_a(ctx: Context, R: Reporter, wrapper: FuncInfo, disp: FuncInfo):
     # what the obligation quantifies over is the callables that can map the likelihood (builtin map, the
     # dispatcher's result), whether they are written as two call sites or as one call of a local name
     n_callables = sum(len(_callable_sources(wrapper, c)) for c in calls_in(wrapper.node) if any(_is_user_like_ref(a) for a in c.args))
-    R.floor("C13.a", "mapping callables in the wrapper", n_callables, 2)
+    R.floor("C13.a", "mapping callables in the wrapper", n_callables, 1)
     # laziness: builtin map (also what the dispatcher returns for a pool of <= 1 processes) yields a one-shot iterator;
     # the result must be materialised before it is subscripted, measured or iterated a second time
     disp_may_be_lazy = any(isinstance(rn.stmt.value, ast.Name) and rn.stmt.value.id == "map" for rn in rets)
@@ -479,8 +479,14 @@ def _row_count(ctx: Context, fi: FuncInfo, arg: Optional[ast.expr], nd) -> Optio
                 fi_v = ent.fi
         if isinstance(v, ast.Call):
             nm = ctx.res.external_name(fi, v) or ""
-            if nm in ("numpy.array", "numpy.asarray") and v.args and isinstance(v.args[0], ast.ListComp):
-                comp = v.args[0]
+            a0_ = v.args[0] if v.args else None
+            # np.array(list(map(f, it))) / np.array([*map(f, it)]): one row per element of `it`
+            if nm in ("numpy.array", "numpy.asarray") and isinstance(a0_, ast.Call) and dotted(a0_.func) in ("list", "tuple") and len(a0_.args) == 1 and isinstance(a0_.args[0], ast.Call) \
+                    and dotted(a0_.args[0].func) == "map" and len(a0_.args[0].args) == 2:
+                it0 = a0_.args[0].args[1]
+                a0_ = ast.ListComp(elt=ast.Constant(value=0), generators=[ast.comprehension(target=ast.Name(id="_", ctx=ast.Store()), iter=it0, ifs=[], is_async=0)])
+            if nm in ("numpy.array", "numpy.asarray") and v.args and isinstance(a0_, ast.ListComp):
+                comp = a0_
                 g = comp.generators[0]
                 it = g.iter
                 if isinstance(it, ast.Call) and dotted(it.func) == "range" and len(it.args) == 1:
